@@ -46,7 +46,7 @@ Fixpoint repair (fuel : nat) (s : lstate T) (M : cmat T) : res (lstate T) :=
                    do v <- mget p M a x;
                    if k_ltb K v mn then do nr' <- vset nr a x; Ok (v, nr')
                    else Ok (mn, nr))
-                xs (k_max K, st_nearest s);
+                xs (k_inf K, st_nearest s);
         do q <- hset (st_queue s) a mn;
         repair f (st_with_queue (st_with_nearest s nearest') q) M
   end.
@@ -153,7 +153,7 @@ Definition generic_with (meth : method) (s : lstate T) (d : dend T) (m : list T)
   if m_obs M =? 0 then Ok (s, d0, m1)
   else
     let s0 := st_reset K s (m_obs M) in
-    let q0 := h_heapify_pre (k_max K) (st_queue s0) in
+    let q0 := h_heapify_pre (k_inf K) (st_queue s0) in
     do '(dists, nearest) <-
       mfold (init_row M) (seq 0 (m_obs M - 1)) (h_prio q0, st_nearest s0);
     do q1 <- h_heapify_post (k_ltb K) q0 dists;
